@@ -174,10 +174,13 @@ func sanitizeChild(args []string) int {
 		if op == "img" { // image.save: the argument is the name of the image, the file name is fixed
 			prog = "image.new(args[0],2,2)\nimage.save(args[0])"
 		}
+		if p, ok := sanitizeExtProg(op); ok { // exec / run / save() / load(): sanitize_ext.go
+			prog = p
+		}
 		res, errs, _ := repl.EvalStringWithOption(context.Background(), o, prog)
 		if len(errs) > 0 {
 			fmt.Fprintln(out, "err")
-		} else if op != "load" {
+		} else if op != "load" && op != "load0" {
 			fmt.Fprintln(out, "ok:-")
 		} else {
 			fmt.Fprintln(out, "ok:"+hx(strings.TrimSpace(res)))
@@ -326,4 +329,5 @@ func sanitizeGen(tier string, r *rng, emit func(string)) {
 			emit("f;10;" + op + ";" + hx(n))
 		}
 	}
+	sanitizeExtGen(emit) // process execution, save() / load() without argument: sanitize_ext.go
 }
